@@ -376,8 +376,11 @@ class PluginGroup(Generic[T], metaclass=PluginGroupMeta):
 
         for dep_ref in self._explicit_plugin_deps(plugin):
             dep_grp = plugingroups[dep_ref.group]
-            # a dependency is a request - take the newest version that supports it
-            found = dep_grp.resolve(dep_ref.name, dep_ref.version)
+            # a dependency is a request - take the newest version that supports it,
+            # unless that very version is there (e.g. the parent class of a schema)
+            found = dep_ref
+            if dep_ref not in dep_grp:
+                found = dep_grp.resolve(dep_ref.name, dep_ref.version)
             if found is None:
                 msg = f"{ep_name}: No installed plugin is compatible with {dep_ref}!"
                 raise TypeError(msg)
